@@ -87,8 +87,9 @@ class C05:
         # concurrent Add/RemoveBackend, with at least one backend registered at every instant and doubles that never
         # fail: no dispatch may panic, fail, or be delivered other than exactly once.  Supporting evidence for the
         # all-interleavings theorem C05_schedules_safe.
-        plans = [(700, 2, 3, 2), (500, 1, 1, 3), (500, 3, 2, 1)] if tier == "quick" else \
-                [(3000, p, c, s) for p in (1, 2, 3) for c in (1, 2, 4) for s in (1, 2, 4)]
+        # (duration ms, permanent backends, churned backends per membership thread, dispatching threads, membership threads)
+        plans = [(700, 2, 3, 2, 2), (500, 1, 1, 3, 1), (500, 3, 2, 1, 3)] if tier == "quick" else \
+                [(3000, p, c, s, t) for p in (1, 2, 3) for c in (1, 2, 4) for s in (1, 2, 4) for t in (1, 2, 3)]
         stress = [Case("rrstress", "st%d" % i, list(p), {"kind": "race-stress", "plan": list(p)}) for i, p in enumerate(plans)]
         got = lib.run_impl(ctx["drv"], stress, ctx["work"], tag="stress")
         tot = {"sends": 0, "errors": 0, "panics": 0, "delivered": 0}
@@ -107,6 +108,15 @@ class C05:
                                  "first_panic": lib.show(o[4], 300),
                                  "summary": "dispatches racing with membership changes: %d sends, %d failed, %d panicked (%s), %d delivered "
                                             "although %d backend(s) were registered the whole time" % (sends, errs, panics, lib.show(o[4], 120), delivered, c.meta["plan"][1])})
+                continue
+            # quiescent again (every membership thread removed what it had added): the rotation is exactly the permanent
+            # backends, in order, and 4k dispatches reach each of the k exactly 4 times
+            want = b"RoundRobin://" + b",".join(b"10.0.0.%d:5060" % (i + 1) for i in range(c.meta["plan"][1]))
+            if len(o) >= 7 and (o[5] != want or o[6] != b"1"):
+                failures.append({"kind": "judge", "has_input": True, "component": "rrstress", "case_id": c.id, "case_line": c.line(), "meta": c.meta,
+                                 "summary": "after concurrent membership changes (each thread removed exactly what it had added) the rotation is %s "
+                                            "(expected %s) and %s" % (lib.show(o[5], 300), lib.show(want, 300),
+                                                                      "rotates evenly" if o[6] == b"1" else "does NOT rotate evenly over the permanent backends")})
         cov["race_stress"] = tot
         cov["evaluations"] += len(stress)
         return {"coverage": cov, "failures": failures}
